@@ -1,6 +1,6 @@
 (* C07 proofs, part 1: unfolding of the ladder, loop budgets, quiet tokens. *)
 From Coq Require Import List NArith Bool Arith Lia.
-From CV Require Import Ast.Defs.
+From CV Require Import Ast.Defs Ast.Frag.
 Import ListNotations.
 
 (* ---------- the loop of rank r with budget n, and the loops r .. r+j-1 *)
